@@ -47,6 +47,8 @@ def _mk_ctx(log, i, fail_setup, fail_teardown, tag="", form="gen"):
         log.append(f"{tag}setup{i}")
         yield
         log.append(f"{tag}teardown{i}")
+        if fail_teardown == "cancelled":
+            raise asyncio.CancelledError()  # e.g. `task.cancel(); await task` without suppress
         if fail_teardown:
             raise Boom(f"teardown{i}")
 
@@ -67,6 +69,8 @@ def _mk_ctx(log, i, fail_setup, fail_teardown, tag="", form="gen"):
 
         async def __aexit__(self, *exc):
             log.append(f"{tag}teardown{i}")
+            if fail_teardown == "cancelled":
+                raise asyncio.CancelledError()
             if fail_teardown:
                 raise Boom(f"teardown{i}")
 
@@ -95,7 +99,7 @@ def contexts(ctx, n=3, entry="runner", with_subapp=False, with_signals=False):
     log = []
     app = web.Application()
     fs = [ctx.flag(f"fail_setup{i}") for i in range(n)]
-    ft = [ctx.flag(f"fail_teardown{i}") for i in range(n)]
+    ft = [ctx.pick(f"fail_teardown{i}", [False, "boom", "cancelled"]) for i in range(n)]
     form = ctx.pick("context_form", ["gen", "acm", "class"])
     for i in range(n):
         app.cleanup_ctx.append(_mk_ctx(log, i, fs[i], ft[i], form=form))
@@ -311,5 +315,5 @@ REQUIRED_OUTCOMES = ("runner:setup-ok", "runner:setup-failed", "run_app:setup-ok
 
 
 def bounds(tier):
-    return {"contexts": "each context in one of three forms (async generator, @asynccontextmanager, class-based); 3 (quick) / 4 cleanup contexts with independent fail-in-setup / fail-in-teardown flags (all 2^(2n) combinations); 2 contexts + 1 sub-application context; 2 contexts + failing on_startup/on_shutdown/on_cleanup handlers; entry points AppRunner and web._run_app",
+    return {"contexts": "each context in one of three forms (async generator, @asynccontextmanager, class-based); 3 (quick) / 4 cleanup contexts with independent fail-in-setup flags and teardown outcomes {ok, raises, raises CancelledError} (all combinations); 2 contexts + 1 sub-application context; 2 contexts + failing on_startup/on_shutdown/on_cleanup handlers; entry points AppRunner and web._run_app",
             "shutdown": "handler duration in {0,2,7,30} s, shutdown_timeout in {1,5} s, on_shutdown hook of 0/1 s, optional late request on the idle connection; virtual time"}
